@@ -395,7 +395,10 @@ def run_station(spec, rec, dadi):
         th = float(rng.uniform(.5, 3))
         if not rec.case("st%d-%d" % (spec["b"], ci), {"gamma": gamma, "h": h, "nu": nu, "beta": beta, "theta0": th}, nontrivial=True):
             continue
-        tags = {"nu_is_1": nu == 1.0, "genic": h == 0.5}
+        # every other case passes the size as a function of time (the time-dependent driver and its own kernels)
+        asfunc = ci % 2 == 1
+        nu_arg = (lambda t, nu=nu: nu) if asfunc else nu
+        tags = {"nu_is_1": nu == 1.0, "genic": h == 0.5, "asfunc": asfunc, "beta_is_1": beta == 1.0}
         errs = []
         for pts in (40, 80, 160):
             xx = Numerics.default_grid(pts)
@@ -404,7 +407,7 @@ def run_station(spec, rec, dadi):
             sig = a >= 1e-3 * a.max()
             r = []
             for T in (0.1 * nu, nu):
-                qd = Integration.one_pop(p, xx, T, nu=nu, gamma=gamma, h=h, theta0=th, beta=beta)
+                qd = Integration.one_pop(p, xx, T, nu=nu_arg, gamma=gamma, h=h, theta0=th, beta=beta)
                 b = np.asarray(Spectrum.from_phi(qd, [n], [xx]).data)[1:n]
                 r.append(float(np.max(np.abs(b / a - 1)[sig])))
             errs.append(max(r))
